@@ -20,8 +20,8 @@ Fixpoint beq (a b : bytes) : bool :=
 (* split on a separator byte; always returns at least one field *)
 Fixpoint split_on_aux (sep : N) (l cur : bytes) : list bytes :=
   match l with
-  | [] => [List.rev cur]
-  | c :: l' => if c =? sep then List.rev cur :: split_on_aux sep l' [] else split_on_aux sep l' (c :: cur)
+  | [] => [List.rev' cur]
+  | c :: l' => if c =? sep then List.rev' cur :: split_on_aux sep l' [] else split_on_aux sep l' (c :: cur)
   end.
 Definition split_on (sep : N) (l : bytes) : list bytes := split_on_aux sep l [].
 
